@@ -32,7 +32,7 @@ import (
 
 type cmdField struct {
 	Name    string
-	Section int // 0 parameters, 1 data
+	Section int    // 0 parameters, 1 data
 	Enc     string // spec expression (sequence) of the LE / canonical encoding
 	EncBE   string // big-endian alternative for multi-byte integers ("" if none)
 	Width   string // Go expression of the encoded width
@@ -43,11 +43,12 @@ type cmdField struct {
 }
 
 type CmdSchema struct {
-	Type    string
-	AndX    bool
-	Fields  []cmdField
-	Unsup   string
-	PkgPath string
+	Type     string
+	AndX     bool
+	Fields   []cmdField
+	Unsup    string
+	NoLayout string // reason why the fixed-layout (Marshal) contract is not generated although the round-trip lemma is
+	PkgPath  string
 }
 
 const cmdPkg = modulePath + "/network/smb/smb_v10/message/commands"
@@ -160,8 +161,8 @@ func (w *World) CommandSchemas() []*CmdSchema {
 						}
 						f.Req += rq
 					}
-					if conditional[f.Name] && f.Unsup == "" {
-						f.Unsup = "emitted only under a condition in Marshal (optional field)"
+					if conditional[f.Name] && f.Unsup == "" && sc.NoLayout == "" {
+						sc.NoLayout = f.Name + ": emitted only under a condition in Marshal (optional field); fixed-layout obligations skipped, round trip still checked"
 					}
 				}
 				for _, f := range sc.Fields {
@@ -549,57 +550,59 @@ func (sc *CmdSchema) MarshalContractText() string {
 			varLen = true
 		}
 	}
-	fmt.Fprintf(&sb, "//@ contract (*%s).Marshal\n", sc.Type)
-	if varLen {
-		fmt.Fprintf(&sb, "//@   prefer-int\n")
-	}
-	fmt.Fprintf(&sb, "//@   requires len(c.Command.Parameters.Words) == 0 && c.Command.Parameters.WordCount == 0 && len(c.Command.Data.Bytes) == 0\n")
-	fmt.Fprintf(&sb, "//@   requires %s <= 65535 && %s <= 500\n", db, wexpr)
-	for _, f := range sc.Fields {
-		if f.Req != "" {
-			fmt.Fprintf(&sb, "//@   requires %s\n", f.Req)
+	if sc.NoLayout == "" {
+		fmt.Fprintf(&sb, "//@ contract (*%s).Marshal\n", sc.Type)
+		if varLen {
+			fmt.Fprintf(&sb, "//@   prefer-int\n")
 		}
-	}
-	fmt.Fprintf(&sb, "//@   ensures [C03,C04,C05:framing] err == nil && len(result0) == 3 + 2*(%s) + (%s) && int(result0[0]) == %s && int(u16le(result0, 1 + 2*(%s))) == %s\n", wexpr, db, wexpr, wexpr, db)
-	if sc.AndX {
-		fmt.Fprintf(&sb, "//@   ensures [C04,C05:andx-block] result0[1] == uint8(c.Command.AndX.AndXCommand) && result0[2] == c.Command.AndX.AndXReserved && (u16le(result0, 3) == c.Command.AndX.AndXOffset || u16be(result0, 3) == c.Command.AndX.AndXOffset)\n")
-		fmt.Fprintf(&sb, "//@   ensures [C05:andx-offset-order] u16le(result0, 3) == c.Command.AndX.AndXOffset\n")
-	}
-	// parameter slots
-	off := fmt.Sprintf("%d", 1+andx)
-	for _, f := range params {
-		hi := "(" + off + ") + (" + f.Width + ")"
-		if f.EncBE != "" {
-			fmt.Fprintf(&sb, "//@   ensures [C04:slot:%s] eq(sub(result0, %s, %s), %s) || eq(sub(result0, %s, %s), %s)\n", f.Name, off, hi, f.Enc, off, hi, f.EncBE)
-			fmt.Fprintf(&sb, "//@   ensures [C05:byte-order:%s] eq(sub(result0, %s, %s), %s)\n", f.Name, off, hi, f.Enc)
-		} else {
-			fmt.Fprintf(&sb, "//@   ensures [C04,C05:slot:%s] eq(sub(result0, %s, %s), %s)\n", f.Name, off, hi, f.Enc)
+		fmt.Fprintf(&sb, "//@   requires len(c.Command.Parameters.Words) == 0 && c.Command.Parameters.WordCount == 0 && len(c.Command.Data.Bytes) == 0\n")
+		fmt.Fprintf(&sb, "//@   requires %s <= 65535 && %s <= 500\n", db, wexpr)
+		for _, f := range sc.Fields {
+			if f.Req != "" {
+				fmt.Fprintf(&sb, "//@   requires %s\n", f.Req)
+			}
 		}
-		off = hi
-	}
-	// data slots
-	off = fmt.Sprintf("3 + 2*(%s)", wexpr)
-	for _, f := range data {
-		hi := "(" + off + ") + (" + f.Width + ")"
-		if f.EncBE != "" {
-			fmt.Fprintf(&sb, "//@   ensures [C04:slot:%s] eq(sub(result0, %s, %s), %s) || eq(sub(result0, %s, %s), %s)\n", f.Name, off, hi, f.Enc, off, hi, f.EncBE)
-			fmt.Fprintf(&sb, "//@   ensures [C05:byte-order:%s] eq(sub(result0, %s, %s), %s)\n", f.Name, off, hi, f.Enc)
-		} else {
-			fmt.Fprintf(&sb, "//@   ensures [C04,C05:slot:%s] eq(sub(result0, %s, %s), %s)\n", f.Name, off, hi, f.Enc)
+		fmt.Fprintf(&sb, "//@   ensures [C03,C04,C05:framing] err == nil && len(result0) == 3 + 2*(%s) + (%s) && int(result0[0]) == %s && int(u16le(result0, 1 + 2*(%s))) == %s\n", wexpr, db, wexpr, wexpr, db)
+		if sc.AndX {
+			fmt.Fprintf(&sb, "//@   ensures [C04,C05:andx-block] result0[1] == uint8(c.Command.AndX.AndXCommand) && result0[2] == c.Command.AndX.AndXReserved && (u16le(result0, 3) == c.Command.AndX.AndXOffset || u16be(result0, 3) == c.Command.AndX.AndXOffset)\n")
+			fmt.Fprintf(&sb, "//@   ensures [C05:andx-offset-order] u16le(result0, 3) == c.Command.AndX.AndXOffset\n")
 		}
-		off = hi
-	}
-	var keeps []string
-	for _, f := range sc.Fields {
-		if f.Keep != "" {
-			keeps = append(keeps, f.Keep)
+		// parameter slots
+		off := fmt.Sprintf("%d", 1+andx)
+		for _, f := range params {
+			hi := "(" + off + ") + (" + f.Width + ")"
+			if f.EncBE != "" {
+				fmt.Fprintf(&sb, "//@   ensures [C04:slot:%s] eq(sub(result0, %s, %s), %s) || eq(sub(result0, %s, %s), %s)\n", f.Name, off, hi, f.Enc, off, hi, f.EncBE)
+				fmt.Fprintf(&sb, "//@   ensures [C05:byte-order:%s] eq(sub(result0, %s, %s), %s)\n", f.Name, off, hi, f.Enc)
+			} else {
+				fmt.Fprintf(&sb, "//@   ensures [C04,C05:slot:%s] eq(sub(result0, %s, %s), %s)\n", f.Name, off, hi, f.Enc)
+			}
+			off = hi
 		}
+		// data slots
+		off = fmt.Sprintf("3 + 2*(%s)", wexpr)
+		for _, f := range data {
+			hi := "(" + off + ") + (" + f.Width + ")"
+			if f.EncBE != "" {
+				fmt.Fprintf(&sb, "//@   ensures [C04:slot:%s] eq(sub(result0, %s, %s), %s) || eq(sub(result0, %s, %s), %s)\n", f.Name, off, hi, f.Enc, off, hi, f.EncBE)
+				fmt.Fprintf(&sb, "//@   ensures [C05:byte-order:%s] eq(sub(result0, %s, %s), %s)\n", f.Name, off, hi, f.Enc)
+			} else {
+				fmt.Fprintf(&sb, "//@   ensures [C04,C05:slot:%s] eq(sub(result0, %s, %s), %s)\n", f.Name, off, hi, f.Enc)
+			}
+			off = hi
+		}
+		var keeps []string
+		for _, f := range sc.Fields {
+			if f.Keep != "" {
+				keeps = append(keeps, f.Keep)
+			}
+		}
+		if len(keeps) > 0 {
+			fmt.Fprintf(&sb, "//@   ensures [C04:fields-kept] %s\n", strings.Join(keeps, " && "))
+		}
+		fmt.Fprintf(&sb, "//@   ensures [C03,C04:re-encode] len(c.Command.Parameters.Words) == 0 && len(c.Command.Data.Bytes) == 0\n")
+		fmt.Fprintf(&sb, "//@ end\n")
 	}
-	if len(keeps) > 0 {
-		fmt.Fprintf(&sb, "//@   ensures [C04:fields-kept] %s\n", strings.Join(keeps, " && "))
-	}
-	fmt.Fprintf(&sb, "//@   ensures [C03:repeatable] len(c.Command.Parameters.Words) == 0 && len(c.Command.Data.Bytes) == 0\n")
-	fmt.Fprintf(&sb, "//@ end\n")
 	// round trip through the real decoder: the harness verifLemmaCmdRoundTrip_<T> (guarded file in the
 	// commands package) encodes c and decodes the bytes into a fresh initialised structure q; both method bodies are expanded in the harness (no contract in between).
 	var same []string
